@@ -55,11 +55,11 @@ CLAIMED = {
         technique="Lean 4 theorems with a tracing converter (order and multiplicity of converter operations) + compiler-correctness theorem (effects of operand evaluation preserved in order) + correspondence + tracer oracle",
         design="7/C04"),
     "C05": dict(
-        text="SEMANTIC PRESERVATION, PARTIAL (Props/C05Sem.lean, batch_preserves_straight_line_semantics_partial): for every program made of definitions and assignments of one "
-             "variable, print and a final panic, over every integer / boolean / string expression of the scalar fragment, the lines the Batch converter emits, executed by the Lean "
+        text="SEMANTIC PRESERVATION, PARTIAL (Props/C05Sem.lean, batch_preserves_straight_line_semantics_partial): for every program made of definitions and assignments (of one "
+             "variable or simultaneous), print and a final panic, over every integer / boolean / string expression of the scalar fragment, the lines the Batch converter emits, executed by the Lean "
              "cmd model Sem/Cmd (run-time !name! expansion, 32-bit set /A on canonical decimal operands, numeric versus quoted string IF, the echo routine, goto :end with the exit "
              "code in _e), print what the 32-bit source semantics Sem/Src32 prints and end the same way - all programs of that shape, any number of statements, any expression depth. "
-             "NOT proved: control flow (labels, goto, parenthesised blocks), simultaneous assignment, functions, slices, string operations - there Sem/Cmd is an executable "
+             "NOT proved: control flow (labels, goto, parenthesised blocks), functions, slices, string operations - there Sem/Cmd is an executable "
              "program-counter machine that is compared in every run with lib/cmdsim.py and the 32-bit reference on the generated programs of the scalar fragment. "
              "Structure (Props/C05.lean), for every program without any hypothesis: every statement leaves parenthesis depth and the heights of the if/loop/"
              "end-label/function stacks unchanged, all stacks are empty at the end, every emitted script has balanced parentheses (helpers included), label numbers are handed out "
